@@ -190,6 +190,17 @@ def strName : Option RawVal → R Name
   | some (.str s) => .ok s
   | _ => .error .invalidTask
 
+/-- the Task object built once every check has passed (`ga`: the tasks named by `getargs`) -/
+def mkTask (d : TDict) (nm : Name) (ga : List Name) : Task :=
+  { name := nm,
+    taskDep := (seqItems (get d .task_dep)).filter (fun x => !x.contains chStar),
+    wildDep := (seqItems (get d .task_dep)).filter (fun x => x.contains chStar),
+    setupTasks := seqItems (get d .setup) ++ dedup (ga.filter (fun t => !(seqItems (get d .setup)).contains t)),
+    calcDep := dedup (seqItems (get d .calc_dep)),
+    targets := seqItems (get d .targets),
+    fileDep := dedup (seqItems (get d .file_dep)),
+    subtaskOf := none, hasSubtask := false }
+
 /-- `Task.__init__` on the keyword arguments `d` (contains `name`) -/
 def initTask (d : TDict) : R Task :=
   if !checkAll d then .error .invalidTask else
@@ -202,17 +213,7 @@ def initTask (d : TDict) : R Task :=
     | .ok ga =>
       match cleanStep (get d .clean) with
       | .error e => .error e
-      | .ok _ =>
-        let setup := seqItems (get d .setup)
-        let td := seqItems (get d .task_dep)
-        .ok { name := nm,
-              taskDep := td.filter (fun x => !x.contains chStar),
-              wildDep := td.filter (fun x => x.contains chStar),
-              setupTasks := setup ++ dedup (ga.filter (fun t => !setup.contains t)),
-              calcDep := dedup (seqItems (get d .calc_dep)),
-              targets := seqItems (get d .targets),
-              fileDep := dedup (seqItems (get d .file_dep)),
-              subtaskOf := none, hasSubtask := false }
+      | .ok _ => .ok (mkTask d nm ga)
 
 /-- `dict_to_task` -/
 def dictToTask (d : TDict) : R Task :=
@@ -252,54 +253,72 @@ inductive Yielded where
   | other
 deriving Repr
 
+/-- the string an f-string makes of a value: itself for a `str`, else the given `format()` result -/
+def fmtOf (v : RawVal) (fmt : Name) : Name :=
+  match v with
+  | .str s => s
+  | _ => fmt
+
+/-- `f"{basename}:{task_dict['name']}"` -/
+def fullName (base nv : RawVal) (nf bf : Name) : Name := fmtOf base bf ++ [chColon] ++ fmtOf nv nf
+
+/-- `task_dict.pop('basename', None)` -/
+def bnOf (d : TDict) : RawVal := (get d .basename).getD .none
+
+/-- `basename or func_name` -/
+def baseOf (fn : Name) (d : TDict) : RawVal := if (bnOf d).truthy then bnOf d else .str fn
+
+/-- get/create the group task and append the sub-task's name to its `task_dep` -/
+def attachSub (tasks : Tasks) (b full : Name) (sub : Task) : R Tasks :=
+  match lookup tasks b with
+  | some g =>
+    if !g.hasSubtask then .error .invalidTask
+    else .ok (insert (insert tasks b { g with taskDep := g.taskDep ++ [full] }) full { sub with subtaskOf := some b })
+  | none =>
+    match groupTask b [full] with
+    | .error e => .error e
+    | .ok g => .ok (insert (insert tasks b g) full { sub with subtaskOf := some b })
+
+def afterSub (tasks : Tasks) (base : RawVal) (full : Name) (sub : Task) : R Tasks :=
+  match base with
+  | .str b => attachSub tasks b full sub
+  | other => if !other.hashable then .error (.crash .typeError)    -- `tasks.get(basename)`
+             else .error .invalidTask                              -- `Task(basename, …)`: name is not a str
+
 /-- sub-task branch of `_generate_task_from_yield`, after `basename = basename or func_name` -/
-def yieldSub (tasks : Tasks) (d0 : TDict) (base : RawVal) (nv : RawVal) (nameFmt baseFmt : Name) : R Tasks :=
-  let baseS := match base with | .str s => s | _ => baseFmt
-  let nameS := match nv with | .str s => s | _ => nameFmt
-  let full := baseS ++ [chColon] ++ nameS
-  if hasKey tasks full then .error .invalidTask else
-  match dictToTask (put d0 .name (.str full)) with
+def yieldSub (tasks : Tasks) (d0 : TDict) (base nv : RawVal) (nf bf : Name) : R Tasks :=
+  if hasKey tasks (fullName base nv nf bf) then .error .invalidTask else
+  match dictToTask (put d0 .name (.str (fullName base nv nf bf))) with
   | .error e => .error e
-  | .ok sub =>
-    match base with
+  | .ok sub => afterSub tasks base (fullName base nv nf bf) sub
+
+/-- `name is None`: attributes of the group task -/
+def yieldGroupAttrs (tasks : Tasks) (d0 : TDict) (base : RawVal) : R Tasks :=
+  match dictToTask (put (put d0 .name base) .actions .none) with
+  | .error e => .error e
+  | .ok g => .ok (insert tasks g.name { g with hasSubtask := true })
+
+/-- not a sub-task -/
+def yieldPlain (tasks : Tasks) (d0 : TDict) (bn : RawVal) : R Tasks :=
+  if !bn.truthy then .error .invalidTask
+  else if !bn.hashable then .error (.crash .typeError)          -- `basename in tasks`
+  else match bn with
     | .str b =>
-      (match lookup tasks b with
-       | some g =>
-         if !g.hasSubtask then .error .invalidTask
-         else .ok (insert (insert tasks b { g with taskDep := g.taskDep ++ [full] }) full
-                     { sub with subtaskOf := some b })
-       | none =>
-         match groupTask b [full] with
-         | .error e => .error e
-         | .ok g => .ok (insert (insert tasks b g) full { sub with subtaskOf := some b }))
-    | other => if !other.hashable then .error (.crash .typeError)    -- `tasks.get(basename)`
-               else .error .invalidTask                              -- `Task(basename, …)`: name is not a str
+      if hasKey tasks b then .error .invalidTask
+      else (match dictToTask (put d0 .name (.str b)) with
+            | .error e => .error e
+            | .ok t => .ok (insert tasks b t))
+    | other => (match dictToTask (put d0 .name other) with
+            | .error e => .error e
+            | .ok t => .ok (insert tasks t.name t))
 
 /-- `_generate_task_from_yield` for a dict -/
-def yieldDict (tasks : Tasks) (fn : Name) (d : TDict) (nameFmt baseFmt : Name) : R Tasks :=
-  let bn := (get d .basename).getD .none
-  let d0 := del d .basename
-  match get d0 .name with
+def yieldDict (tasks : Tasks) (fn : Name) (d : TDict) (nf bf : Name) : R Tasks :=
+  match get (del d .basename) .name with
   | some nv =>
-    let base := if bn.truthy then bn else .str fn
-    if nv = .none then
-      -- attributes of the group task
-      match dictToTask (put (put d0 .name base) .actions .none) with
-      | .error e => .error e
-      | .ok g => .ok (insert tasks g.name { g with hasSubtask := true })
-    else yieldSub tasks d0 base nv nameFmt baseFmt
-  | none =>
-    if !bn.truthy then .error .invalidTask
-    else if !bn.hashable then .error (.crash .typeError)          -- `basename in tasks`
-    else match bn with
-      | .str b =>
-        if hasKey tasks b then .error .invalidTask
-        else (match dictToTask (put d0 .name (.str b)) with
-              | .error e => .error e
-              | .ok t => .ok (insert tasks b t))
-      | other => (match dictToTask (put d0 .name other) with
-              | .error e => .error e
-              | .ok t => .ok (insert tasks t.name t))
+    if nv = .none then yieldGroupAttrs tasks (del d .basename) (baseOf fn d)
+    else yieldSub tasks (del d .basename) (baseOf fn d) nv nf bf
+  | none => yieldPlain tasks (del d .basename) (bnOf d)
 
 def yieldOne (fn : Name) (tasks : Tasks) : Yielded → R Tasks
   | .other => .error .invalidTask
@@ -417,6 +436,76 @@ def control (ts : List Task) : R (List Task) :=
   if !ts1.all (depsExist names) then .error .invalidTask
   else if !nodupB (ts1.flatMap (·.targets)) then .error .invalidTask
   else .ok (ts1.map (addImplicit ts1))
+
+/-! ## decidable hypotheses of the C18 theorems (evaluated by the driver on every generated case) -/
+
+/-- `clean` is a number equal to `True` (`1`, `1.0`): passes `check_attr`, then `for a in clean` fails -/
+def cleanBad : Option RawVal → Bool
+  | some (.int n) => n == 1
+  | some (.float h) => h == 2
+  | _ => false
+
+/-- `uptodate` is a non-empty tuple and `getargs` is not empty: `uptodate.extend` does not exist -/
+def tupleExtend (d : TDict) : Bool :=
+  !(getargsEntries (get d .getargs)).isEmpty &&
+    (match get d .uptodate with | some (.tuple (_ :: _)) => true | _ => false)
+
+/-- a truthy unhashable `basename` in a yielded dict -/
+def basenameBad (d : TDict) : Bool := (bnOf d).truthy && !(bnOf d).hashable
+
+def initSafe (d : TDict) : Bool := !cleanBad (get d .clean) && !tupleExtend d
+
+def yieldedDicts : List Yielded → List TDict
+  | [] => []
+  | .dict d _ _ :: ys => d :: yieldedDicts ys
+  | _ :: ys => yieldedDicts ys
+
+/-- none of the three known crash shapes occurs in the creators' results -/
+def resultSafe : Result → Bool
+  | .dict d => initSafe d
+  | .gen items => (yieldedDicts (Gen.flattenList items)).all (fun d => initSafe d && !basenameBad d)
+  | _ => true
+
+def Safe (cs : List Creator) : Bool := cs.all (fun c => resultSafe c.result)
+
+/-- keys that a generator's yields *replace* (finding `yield-replaces-task`): a `name: None` dict or a Task object
+    arriving when its key is already in the generator's task dictionary.  `keysAfter` mirrors the keys that
+    `_generate_task_from_yield` inserts when every step succeeds. -/
+def yieldKeys (fn : Name) : Yielded → List Name
+  | .other => []
+  | .task t => [t.name]
+  | .dict d nf bf =>
+    match get (del d .basename) .name with
+    | some nv =>
+      if nv = .none then [fmtOf (baseOf fn d) bf]
+      else [fmtOf (baseOf fn d) bf, fullName (baseOf fn d) nv nf bf]
+    | none => [fmtOf (bnOf d) bf]
+
+def isReplacer : Yielded → Bool
+  | .task _ => true
+  | .dict d _ _ => get (del d .basename) .name = some .none
+  | .other => false
+
+def noReplace (fn : Name) : List Name → List Yielded → Bool
+  | _, [] => true
+  | seen, y :: ys =>
+    !(isReplacer y && (yieldKeys fn y).any seen.contains) && noReplace fn (seen ++ yieldKeys fn y) ys
+
+/-- no generator replaces a task it has already defined, and Task objects handed over by creators are plain
+    (not marked as sub-task or group by hand) -/
+def plainTask (t : Task) : Bool := t.subtaskOf.isNone && !t.hasSubtask
+
+def yieldedTasks : List Yielded → List Task
+  | [] => []
+  | .task t :: ys => t :: yieldedTasks ys
+  | _ :: ys => yieldedTasks ys
+
+def resultTidy (fn : Name) : Result → Bool
+  | .gen items => noReplace fn [] (Gen.flattenList items) && (yieldedTasks (Gen.flattenList items)).all plainTask
+  | .task t => plainTask t
+  | _ => true
+
+def Tidy (cs : List Creator) : Bool := cs.all (fun c => resultTidy c.name c.result)
 
 inductive Outcome where
   | tasks (ts : List Task)
